@@ -1,26 +1,62 @@
-(* Model/W4Squeeze.v — hand reference for sptensor.squeeze() as generated into Gen/GenSptensor4b.v. *)
+(* Model/W4Squeeze.v — hand reference for sptensor.squeeze() as generated into Gen/GenSptensor4b.v.
+   Wave 6: the reference is parametric in the entry-wise test `keep` that says which modes stay ("not a singleton").
+   /repo up to f390850 reads `shapeArray > 1` (sq_gt1: a mode of size 0 is dropped as well), the repaired text reads
+   `shapeArray != 1` (sq_ne1: only the modes of size 1 are dropped); the two tests agree on every positive size. *)
 From Coq Require Import List ZArith Arith Bool Lia.
-From PV Require Import Np.NpZ Np.NpZ2 Np.NpZ3 Np.NpZ3c Np.NpZ3d Np.NpZ3e Np.NpZ4 Np.NpZ4b Np.NpZ4d.
+From PV Require Import Np.NpZ Np.NpZ2 Np.NpZ3 Np.NpZ3c Np.NpZ3d Np.NpZ3e Np.NpZ4 Np.NpZ4b Np.NpZ4d Np.NpZ4f.
 Import ListNotations.
 Local Open Scope Z_scope.
 
-(* positions of the modes of size > 1 *)
-Definition H_keep (shape : vec) : vec := np_where1 (np_gt_s shape 1).
+Definition sq_gt1 (d : Z) : bool := d >? 1.
+Definition sq_ne1 (d : Z) : bool := negb (d =? 1).
+
+Lemma sq_keep_agree (d : Z) : 0 < d -> sq_ne1 d = sq_gt1 d.
+Proof. unfold sq_ne1, sq_gt1. intros H. destruct (Z.eqb_spec d 1), (Z.gtb_spec d 1); cbn; try reflexivity; lia. Qed.
+Lemma sq_keep_zero : sq_ne1 0 = true /\ sq_gt1 0 = false.
+Proof. split; reflexivity. Qed.
+
+(* positions of the modes that stay *)
+Definition H_keep_p (keep : Z -> bool) (shape : vec) : vec := np_where1 (map keep shape).
 (* no singleton mode: a copy (through the constructor); every mode a singleton: the single stored value, 0 when nothing
    is stored (more than one stored value: .item() raises); otherwise the singleton modes are dropped from the shape and
    from every subscript row *)
-Definition H_squeeze (self : sptz) : res sq_result :=
+Definition H_squeeze_p (keep : Z -> bool) (self : sptz) : res sq_result :=
   let sh := spt_shape self in
-  if forallb (fun d => d >? 1) sh then
+  if forallb keep sh then
     (if spt_make_ok (spt_subs self) (spt_vals self) sh then Ok (SqTensor self) else Err)
-  else if zlen (H_keep sh) =? 0 then
+  else if zlen (H_keep_p keep sh) =? 0 then
     match spt_vals self with
     | [] => Ok (SqScalar 0)
     | [v] => Ok (SqScalar v)
     | _ => Err
     end
   else
-    let siz := filter (fun d => d >? 1) sh in
+    let siz := filter keep sh in
     if zlen (spt_vals self) =? 0 then (if spt_make_ok [] [] siz then Ok (SqTensor (mkspt [] [] siz)) else Err)
-    else if np_cols_ok (spt_subs self) (H_keep sh) && spt_make_ok (np_cols (spt_subs self) (H_keep sh)) (spt_vals self) siz
-         then Ok (SqTensor (mkspt (np_cols (spt_subs self) (H_keep sh)) (spt_vals self) siz)) else Err.
+    else if np_cols_ok (spt_subs self) (H_keep_p keep sh) && spt_make_ok (np_cols (spt_subs self) (H_keep_p keep sh)) (spt_vals self) siz
+         then Ok (SqTensor (mkspt (np_cols (spt_subs self) (H_keep_p keep sh)) (spt_vals self) siz)) else Err.
+
+(* the two instances: the text `> 1` (names of waves 4/5 kept) and the text `!= 1` *)
+Definition H_keep (shape : vec) : vec := H_keep_p (fun d => d >? 1) shape.
+Definition H_squeeze (self : sptz) : res sq_result := H_squeeze_p (fun d => d >? 1) self.
+Definition H_squeeze_ne (self : sptz) : res sq_result := H_squeeze_p (fun d => negb (d =? 1)) self.
+
+(* the reference depends on `keep` only through its values on the sizes of the receiver *)
+Lemma H_squeeze_p_ext (k1 k2 : Z -> bool) (self : sptz) :
+  (forall d, In d (spt_shape self) -> k1 d = k2 d) -> H_squeeze_p k1 self = H_squeeze_p k2 self.
+Proof.
+  intros H. unfold H_squeeze_p, H_keep_p. cbv zeta.
+  assert (Em : map k1 (spt_shape self) = map k2 (spt_shape self)) by (apply map_ext_in; exact H).
+  assert (Ef : filter k1 (spt_shape self) = filter k2 (spt_shape self)) by (apply filter_ext_in; exact H).
+  assert (Ea : forallb k1 (spt_shape self) = forallb k2 (spt_shape self)).
+  { clear Em Ef. induction (spt_shape self) as [|d s IH]; [reflexivity|]. cbn [forallb].
+    rewrite (H d (or_introl eq_refl)). f_equal. apply IH. intros e He. apply H. right. exact He. }
+  rewrite Em, Ef, Ea. reflexivity.
+Qed.
+
+(* on a receiver whose sizes are all positive the two texts have the same reference *)
+Lemma H_squeeze_ne_pos (self : sptz) : forallb (fun d => 0 <? d) (spt_shape self) = true -> H_squeeze_ne self = H_squeeze self.
+Proof.
+  intros H. apply H_squeeze_p_ext. intros d Hd. rewrite forallb_forall in H. specialize (H d Hd). apply Z.ltb_lt in H.
+  exact (sq_keep_agree d H).
+Qed.
